@@ -139,8 +139,12 @@ def lazy_vs_eager(call, inputs, chunks, scheduler, allowed_notimpl, what, ctx=No
     for l, e in zip(outs_l, outs_e):
         if not dask.is_dask_collection(l.data):
             raise Violation(f"{what}: result of a lazy input is not dask-backed", chunks=chunks)
-        with dask.config.set(scheduler=scheduler):
-            c = l.compute()
+        try:
+            with dask.config.set(scheduler=scheduler):
+                c = l.compute()
+        except Exception as e2:  # noqa: BLE001 - the in-memory call returned, so the lazy result must be computable
+            raise Violation(f"{what}: computing the lazy result raised where the in-memory call returns", exception=type(e2).__name__,
+                            message=str(e2)[:300], chunks=chunks)
         if c.dims != e.dims:
             raise Violation(f"{what}: dims differ between lazy and in-memory execution", lazy=list(c.dims), eager=list(e.dims))
         if c.shape != e.shape:
